@@ -35,7 +35,7 @@ Definition outc_of (e : exec_end) : Z :=
   | EndOutOfFuel => -4
   end.
 
-Definition exec_fuel (s : list tag) (fuel : Z) : nat := (4 * length s + 12 * Z.to_nat fuel + 8)%nat.
+Definition exec_fuel (s : list tag) (fuel : Z) : nat := (6 * length s + 12 * Z.to_nat fuel + 8)%nat.
 
 (* Prediction of the machine from the state in which a poll (or a blocked operation) finds the
    context done: (dispatch attempts, completed instructions, outcome). *)
